@@ -26,6 +26,8 @@ Fragment kinds (what the mate-pairing library delivers is taken as given, the st
   unmapped_placed_pair  both mates unmapped but placed on the contig                               invalid
   umi_bridge  three pairs of one cell at one cut site with UMIs A, B (distance 2) and then C at distance 1 of both:
               C matches two buffered molecules and must join exactly one of them
+  untagged    a proper pair without SM/RX/... tags whose read name carries no demultiplexing information: the tagger
+              cannot assign it to a cell (C20: data-driven failure; not part of the random C05 kinds)
   dup_lane    copy of the previous pair sequenced on another lane / flowcell: same molecule, different read group,
               and that read group is not the first fragment of any molecule
   unplaced_pair / unplaced_single   unmapped, no position                      invalid
@@ -202,6 +204,15 @@ def build(layout, rng, method='nla'):
                     reads += [r1, r2]
                     note(name, 1, 1, True, kind, cn)
                     note(name, 2, 2, False, kind, o['name'])
+            elif kind == 'untagged':
+                nm = 'plainread%d' % serial[0]
+                r1 = bamgen.make_read(header, nm, cn, pos, _seq(rng, l1, start='CATG'), _qual(rng, l1), paired=True, proper=True,
+                                      read1=True, mate_contig=cn, mate_pos=pos + 40, mate_reverse=True, tlen=40 + l2)
+                r2 = bamgen.make_read(header, nm, cn, pos + 40, _seq(rng, l2), _qual(rng, l2), paired=True, proper=True,
+                                      read2=True, reverse=True, mate_contig=cn, mate_pos=pos, tlen=-(40 + l2))
+                reads += [r1, r2]
+                note(nm, 1, 1, False, kind, cn)
+                note(nm, 2, 2, False, kind, cn)
             elif kind == 'umi_bridge':
                 for suffix, u in (('a', 'AAA'), ('b', 'ATT'), ('c', 'AAT')):
                     t3 = dict(tg, RX=u)
